@@ -1194,6 +1194,8 @@ class PlainQuantity(Generic[MagnitudeT], PrettyIPython, SharedRegistryObject):
                 return self
             elif other == 0:
                 self._units = self.UnitsContainer()
+                # a zero given as a (dimensionless) quantity: use its number
+                other = getattr(other, "_magnitude", other)
             else:
                 if not self._is_multiplicative:
                     if self._REGISTRY.autoconvert_offset_to_baseunit:
